@@ -98,6 +98,14 @@ def scenarios(run):
     for sd in seeds[:2]:
         cfg = dict(base, N=1, r=2.5, seed=sd, kpre=2, nsym=3, script=[('solve',)], iters_limit=4, eps='sym', density=2, tags=['coarse-density'])
         out.append((cfg, 'Solve with evolventDensity=2, itersLimit=4, prefix f#%d, eps symbolic' % sd))
+    # a long run on a coarse 2-D evolvent: several trials share an image point; every one of them is an evaluation and a reported trial
+    for sd in seeds[:2]:
+        cfg = dict(base, N=2, r=2.5, seed=sd, kpre=13, nsym=1, script=[('iter', 12), ('solve',)], iters_limit=14, eps=1e-9, density=2, tags=['coarse-2d'])
+        out.append((cfg, 'N=2 density 2: 14 trials of a concrete run (trials sharing an image), prefix f#%d' % sd))
+    # refinement must not touch the count of global trials
+    for sd in seeds[:2]:
+        cfg = dict(base, N=1, r=2.5, seed=sd, kpre=3, nsym=2, script=[('solve',)], iters_limit=4, eps=1e-9, refine=True, nm_points=1, tags=['with-refinement'])
+        out.append((cfg, 'Solve(refineSolution=True), itersLimit=4, prefix f#%d: global trial count with refinement' % sd))
     # stepping beyond the budget, then Solve: nothing more
     cfg = dict(base, N=1, r=2.5, seed=seeds[0], kpre=3, nsym=3, script=[('iter', 4), ('solve',)], iters_limit=2, eps=1e-9, tags=['over-budget'])
     out.append((cfg, 'DoGlobalIteration(4) with itersLimit=2, then Solve'))
@@ -130,7 +138,7 @@ def main():
     run.finish('evaluations = reported trials <= itersLimit; Solve stops exactly when the accuracy criterion first holds or the budget is '
                'exhausted; reported accuracy = smallest Hoelder length subdivided; termination by a ranking function',
                vacuity=['guard', 'recalc-pending', 'recalc-not-pending', 'solve-on-a-finished-state', 'solve-does-one-iteration',
-                        'fresh-budget-1', 'fresh-budget-2', 'fresh-budget-3', 'prefix-solve', 'batches-then-solve', 'over-budget', 'coarse-density',
+                        'fresh-budget-1', 'fresh-budget-2', 'fresh-budget-3', 'prefix-solve', 'batches-then-solve', 'over-budget', 'coarse-density', 'coarse-2d', 'with-refinement',
                         'right-boundary-interval', 'interior-interval'])
 
 
